@@ -18,7 +18,7 @@
    scheduler is sampled, not enumerated. *)
 
 From Coq Require Import List NArith ZArith Bool String.
-From Nexus Require Import Client.ClientModel Client.ClientModelProofs.
+From Nexus Require Import Client.ClientModel Client.ClientModelProofs Client.ClientHistory.
 Import ListNotations.
 Open Scope N_scope.
 
@@ -44,6 +44,17 @@ Print Assumptions reply_correlated.
 Theorem awaiting_well_formed : forall U c tr, WF (x_state (exec U c tr)).
 Proof. exact wf_reachable. Qed.
 Print Assumptions awaiting_well_formed.
+
+(* Over EVERY execution (all label lists): a return bearing request id k <> 0
+   by goroutine o comes after the ApiStart by which THAT goroutine issued k,
+   no return for k precedes that ApiStart, and it is the only return for k in
+   the whole execution: each call returns for its own request, once. *)
+Theorem returns_own_request_once : forall U c tr o k r,
+  k <> 0 -> In (EOut (OReturn o k r)) (x_events (exec U c tr)) ->
+  exists pre p post, x_events (exec U c tr) = pre ++ ELab (ApiStart o p k) :: post /\
+    count_ret_ev k pre = 0%nat /\ count_ret_ev k post = 1%nat.
+Proof. exact returns_own_request_once_proof. Qed.
+Print Assumptions returns_own_request_once.
 
 Example reply_correlated_nonvacuous :
   exists s s' outs, step checked s (RouterMsg (RSubscribed 1 77)) = Ok s' outs /\
